@@ -2477,11 +2477,16 @@ def main(
     # read animal population data
     df_animal_stock_info = AnimalDataReader.read_animal_population_data(population_csv)
 
+    if country_code == "SWT":
+        # this indicates swaziland, which is "SWZ" in non-cleaned-up FAOSTAT data
+        country_code = "SWZ"
+
     # custom animal stock info
     if constants_inputs:
         for key, value in constants_inputs.items():
             if "_head_start" in key:
-                df_animal_stock_info.loc[country_code, key.strip("_start")] = value
+                # remove the "_start" suffix (str.strip would remove characters, not a suffix)
+                df_animal_stock_info.loc[country_code, key[: -len("_start")]] = value
 
     # read animal nutrition data
     df_animal_attributes = AnimalDataReader.read_animal_nutrition_data(attributes_csv)
@@ -2498,10 +2503,6 @@ def main(
 
     # WHEN INTEGRATING, THESE CREATION OF OBJECTS SHOULD BE DONE OUTSIDE OF THE MAIN FUNCTION
     # AND ONLY ON THE FIRST RUN OF THE MODEL
-
-    if country_code == "SWT":
-        # this indicates swaziland, which is "SWZ" in non-cleaned-up FAOSTAT data
-        country_code = "SWZ"
 
     # # Populate animal objects ##
     # create animal objects
